@@ -11,10 +11,13 @@ CLAIMED = {
  "C02": ("Seeded search over placements (aligned and crossed/forward-path), start orders and late partition ids on rig R; every emitted message's collection id, partition id, shard pairing, queue and positions are compared with the simulated downstream catalog.", "4 C02", NOTE_R),
  "C03": ("Seeded search over interleavings of streams multiplexed on one downstream channel with yield hooks at collect/compute/enqueue; tick monotonicity, message-above-earlier-ticks, timestamp agreement and per-shard order are checked both in lock order and in queue order (single incarnation).", "4 C03", NOTE_R),
  "C04": ("Seeded search over shard orders, AddPartition/registration races and stops on rig R; drop requests are checked for exactly-once, naming, stop-produces-no-drop, and against the barrier signals observed through the yield hook (only after every shard handled its drop message), plus bounded liveness after the drain.", "4 C04", NOTE_R),
+ "C07": ("Seeded interleavings of 1-3 channel writers over the real HandleReplicateMessage / replicateMessageManager with parked downstream calls and injected rejections: every downstream call's bytes are decoded with Milvus' own dispatcher and compared (type, order, ids, mapped names, rows, timestamps, replicate marking, tick conversion); envelope, checkpoint, per-call target position (no cross-talk) and error propagation are checked.", "4 C07", "Trusted base: the recording DataHandler and the message builders; the round-trip equality itself has no schedule dependence, the simulator adds concurrent callers, completion order and failures."),
+ "C08": ("Seeded source histories with create/drop/re-create on all three levels, a start-up snapshot of dropped objects plus a replayed op prefix, and two concurrent delivery streams (API events, op messages) whose relative progress the scheduler chooses, against the real ChannelWriter over a downstream that tags every object with the source incarnation that created it: stale operations must be skipped successfully and never touch a newer incarnation, live ones must be applied.", "4 C08", "Trusted base: the simulated downstream catalog (drops idempotent, other operations fail on missing objects), the start-up snapshot built as C15 describes it; restart of the writer in the middle of a run is not modelled (one incarnation with a replayed prefix)."),
+ "C09": ("Same rig as C08 with a name mapping in every run (exact, whole-database, both for one source database, unrelated; source db default/empty/other) and replayable Map.Range order: database routed to, request database and collection names of every downstream call (18 op kinds, 4 API events, 3 probes) are compared with the reference mapping; DML message types are covered in the C07 check.", "4 C09", "Trusted base: reference mapping function (exact entry, else whole-database entry, else identity); database-level names under collection-level-only entries are accepted either way (see DESIGN)."),
  "C12": ("Seeded operation histories with injected store faults against both real metadata backends over simulated etcd / MySQL servers; after every operation the whole state is read back through the public API and compared with a reference map keyed (root, task, collection, channel); failed operations must be all-or-nothing.", "4 C12", NOTE_ST),
  "C14": ("Seeded interleavings of 1-3 batchers sharing the global memory budget under a simulated clock, with callback failures injected at any flush: every callback must receive exactly the packs buffered since the last flush in arrival order, errors must reach the caller, nothing may be left at shutdown and the global counter must be zero whenever all batchers are empty.", "4 C14", "Trusted base: the scripted callback and the bubble clock; the batcher itself is sequential, the simulator supplies the clock, the interleaving of batchers around the shared counter and the failure points."),
  "C17": ("Seeded histories of shard reports, removals and reloads against the real ReplicateMeteImpl over the real etcd / MySQL replicate stores (simulated servers) and an in-memory store; memory, store and the union of reports must agree after every step and readiness must equal union == targets.", "4 C17", NOTE_ST),
- "C20": ("Event part: create/drop collection/partition API events produced by the reader are checked for replication stamp, task and source operation time under scheduler-ordered barrier wake-ups. (Writer part of the property: see level_note.)", "4 C20", NOTE_R),
+ "C20": ("Two rigs, alternated: (R) create/drop collection/partition API events produced by the reader are checked for replication stamp, task and source operation time under scheduler-ordered barrier wake-ups; (WD) every op-message kind and API event through the real ChannelWriter must yield exactly one downstream request of the right kind with the source's identity fields (index, field, partition lists minus dropped members, user/role/privilege, schema/shards/consistency/properties), the replication mark and the source operation time; malformed packs are rejected without a downstream call.", "4 C20", NOTE_R + " Rig WD: see C08."),
 }
 EXTRA = {}
 try:
